@@ -16,13 +16,13 @@ theorem setSlot_ok {i : Nat} {x : Insn} {g : GenState} {r : Unit × GenState} :
 
 /-- `r_long` as `atomInfo` predicts it -/
 theorem atomInfo_rLong (l r : Expr) : (atomInfo l r).rLong =
-    (!r.asSmallConst.isSome && (match (if l.signed && widthOf l then some true else none : Option Bool) with
+    (!r.asSmallConst.isSome && (match (if (l.signed || r.signed) && widthOf l then some true else none : Option Bool) with
       | some b => retLong b r | none => widthOf r)) := rfl
 
 /-- the right operand: an immediate, or computed into some register that stays reserved until the jump -/
 theorem cmpRight_correct (l r : Expr) (g1 g2 : GenState) (rr : Nat × Bool × List Nat × Int)
     (hr : r.asSmallConst = none → OperandOk r (rW l r) g1.owners)
-    (h : cmpRight r (if l.signed && widthOf l then some true else none) g1 = .ok (rr, g2)) :
+    (h : cmpRight r (if (l.signed || r.signed) && widthOf l then some true else none) g1 = .ok (rr, g2)) :
     ∃ cr, g2.code = g1.code ++ cr ∧ (∀ i ∈ cr, straight i = true) ∧ g2.owners = rr.2.2.1 ++ g1.owners ∧
       (∀ x ∈ rr.2.2.1, x ∉ g1.owners) ∧ g2.stack = g1.stack ∧ rr.2.1 = (atomInfo l r).rLong ∧
       (r.asSmallConst = none → (rr.1 ∈ rr.2.2.1 ∨ r.contains rr.1 = true)) ∧
